@@ -100,7 +100,7 @@ fn site_name(i: usize) -> &'static str {
         "probe.dopri5_reject", "probe.dop853_reject", "probe.radau_reject", "probe.radau_lu_singular",
         "probe.radau_newton_retry", "probe.bdf_lu_fail", "probe.bdf_newton_fail", "probe.bdf_reject",
         "probe.dopri5_stiff_test", "probe.dop853_stiff_test", "probe.bdf_order_change", "probe.radau_reuse_lu",
-        "probe.event_root_search", "", "", "", "", "", "", "", "", "seam.crossings",
+        "probe.event_root_search", "loop.output_handler", "", "", "", "", "", "", "", "seam.crossings",
     ][i]
 }
 
